@@ -40,7 +40,10 @@ def parse_reference_path(ref_path_raw: str) -> Union[ReferencePath, ParseError]:
     See Also:
         - https://swagger.io/docs/specification/using-ref/
     """
-    parsed = urlparse(ref_path_raw)
+    try:
+        parsed = urlparse(ref_path_raw)
+    except ValueError:
+        return ParseError(detail=f"{ref_path_raw} is not a valid reference.")
     if parsed.scheme or parsed.netloc or parsed.path or parsed.params or parsed.query:
         return ParseError(detail=f"Remote references such as {ref_path_raw} are not supported yet.")
     return cast(ReferencePath, parsed.fragment)
